@@ -116,6 +116,7 @@ func NewMultiConsumer(ins []Edge, r MultiReceiver) Consumer {
 		ins:      ins,
 		r:        r,
 		messages: make(chan srcMessage),
+		done:     make(chan struct{}),
 	}
 }
 
@@ -125,6 +126,8 @@ type multiConsumer struct {
 	r MultiReceiver
 
 	messages chan srcMessage
+	// done is closed when Consume returns, it releases the readEdge goroutines.
+	done chan struct{}
 }
 
 type srcMessage struct {
@@ -133,6 +136,9 @@ type srcMessage struct {
 }
 
 func (c *multiConsumer) Consume() error {
+	// Consume may return early because of an error,
+	// do not leave the readEdge goroutines blocked on sending their next message.
+	defer close(c.done)
 	errC := make(chan error, len(c.ins))
 	for i, in := range c.ins {
 		go func(src int, in Edge) {
@@ -140,7 +146,7 @@ func (c *multiConsumer) Consume() error {
 		}(i, in)
 	}
 
-	firstErr := make(chan error, 1)
+	firstErr := make(chan error, len(c.ins))
 	go func() {
 		for range c.ins {
 			err := <-errC
@@ -200,14 +206,16 @@ func (c *multiConsumer) readEdge(src int, in Edge) error {
 			}
 		case EndBatchMessage:
 			batch := batchBuffer.BufferedBatchMessage(msg)
-			c.messages <- srcMessage{
-				Src: src,
-				Msg: batch,
+			select {
+			case c.messages <- srcMessage{Src: src, Msg: batch}:
+			case <-c.done:
+				return nil
 			}
 		default:
-			c.messages <- srcMessage{
-				Src: src,
-				Msg: msg,
+			select {
+			case c.messages <- srcMessage{Src: src, Msg: msg}:
+			case <-c.done:
+				return nil
 			}
 		}
 	}
